@@ -363,7 +363,7 @@ def run(ctx):
                       {"construct": str(ex)}, found_input=False)
     for k, v in gens.items():
         open(os.path.join(ctx.build, k), "w").write(v)
-    ctx.copy_props("C11/C11_wf.v", "C11/C11_pmat.v", "C11/C11_rot.v", "C10/C10_base.v", "C10/C10_beam.v", "C10/C10_beam_corrected.v", "C10/C10_strain.v", "C10/C10_continuum.v", "C10/C10_iso.v", "C10/C10_matrix.v")
+    ctx.copy_props("C11/C11_wf.v", "C11/C11_pmat.v", "C11/C11_rot.v", "C10/C10_base.v", "C10/C10_beam.v", "C10/C10_beam_corrected.v", "C10/C10_strain.v", "C10/C10_continuum.v", "C10/C10_iso.v", "C10/C10_matrix.v", "C10/C10_integrated.v", "C10/C10_matrix2d.v")
     g = ctx.coq([f for f in ("Gen_Beam.v", "Gen_Pmat.v", "Gen_Laws.v") if f in gens] + (["C11_wf.v"] if "Gen_Pmat.v" in gens else []) + ["C10_base.v"], timeout=300, count=False)
     if not g.ok:
         ctx.obligation("generated-files-compile", False, g.log[-1500:])
@@ -393,9 +393,10 @@ def run(ctx):
     if laws_coq and res["pmat"].ok and res["rot"].ok:
         job("strain", ["C10_strain.v"])
         if res["strain"].ok:
-            tm = threading.Thread(target=job, args=("matrix", ["C10_matrix.v"]))
+            tm = threading.Thread(target=job, args=("matrix", ["C10_matrix.v", "C10_integrated.v"]))
             tm.start()
             job("continuum", ["C10_continuum.v"])
+            job("matrix2d", ["C10_matrix2d.v"])
             tm.join()
     if laws_coq:
         th[-1].join()
@@ -417,7 +418,7 @@ def run(ctx):
                       "the beam element matrices are built with 3x3 blocks %s where P^T is needed (N_e_pg @ P_e_pg, B_e_pg @ P_e_pg): beam_K_objective is refuted by a 30-degree rotation%s"
                       % (ctx.cov["beam_block_layout"], " (machine-checked)" if rr.ok else ""),
                       {"replay_py": REPLAY % dict(verif=common.VERIF, case=case, tol=TOL), "case": case, "obligation": "beam_K_objective"}, found_input=True)
-    for name in ("corrected", "pmat", "rot", "strain", "continuum", "matrix", "iso"):
+    for name in ("corrected", "pmat", "rot", "strain", "continuum", "matrix", "matrix2d", "iso"):
         r = res.get(name)
         if r is not None and not r.ok:
             ctx.violation("proof-broken:%s" % r.failed_file, "theorem file %s no longer checks against the regenerated definitions" % r.failed_file,
